@@ -351,7 +351,27 @@ func checkC17(p *Prog, r *Report) {
 		if isNil && !wrote {
 			missClean = "a package that translated without error is not written on the path " + ip.Trace
 		}
-		if notNil && wrote && (ignoreP == nil || !ip.Rels[ignoreP.Name()+" == true"] && !ip.Rels["true == "+ignoreP.Name()]) {
+		ignoreFact := ignoreP != nil && (ip.Rels[ignoreP.Name()+" == true"] || ip.Rels["true == "+ignoreP.Name()])
+		if !ignoreFact {
+			// the setting may be a field of an options parameter
+			for k := range ip.Rels {
+				lhs := ""
+				if strings.HasSuffix(k, " == true") {
+					lhs = strings.TrimSuffix(k, " == true")
+				} else if strings.HasPrefix(k, "true == ") {
+					lhs = strings.TrimPrefix(k, "true == ")
+				}
+				if lhs == "" || strings.ContainsAny(lhs, "( ") {
+					continue
+				}
+				for _, pa := range tr.Params {
+					if strings.HasPrefix(lhs, pa.Name()+".") {
+						ignoreFact = true
+					}
+				}
+			}
+		}
+		if notNil && wrote && !ignoreFact {
 			wroteFailed = "a package whose translation failed is written without the fact " + "ignoreErrors == true on the path " + ip.Trace
 		}
 	}
@@ -521,7 +541,15 @@ func checkC17(p *Prog, r *Report) {
 				okPath, whyPath = false, "written path is "+e.Args[0]+", not path.Join(outRootDir, coq.ImportToPath(...))"
 			} else {
 				_, elems, _ := parseCallKey("x(" + strings.TrimSuffix(strings.TrimPrefix(ja[0], "["), "]") + ")")
-				if len(elems) != 2 || elems[0] != outRoot.Name() {
+				rootedAtParam := func(k string) bool {
+					for _, pa := range tr.Params {
+						if k == pa.Name() || strings.HasPrefix(k, pa.Name()+".") {
+							return true
+						}
+					}
+					return false
+				}
+				if len(elems) != 2 || !(elems[0] == outRoot.Name() || rootedAtParam(elems[0]) && !strings.Contains(elems[0], "(")) {
 					okPath, whyPath = false, "path elements are "+ja[0]+": the first must be the -out directory and the second coq.ImportToPath(...)"
 				} else {
 					// the second element is computed from F.PkgPath of one file value F — written as
@@ -688,7 +716,19 @@ func checkLoaderAndFlags(p *Prog, r *Report, tr *ssa.Function, tpCall *ssa.Call)
 	// newPackageConfig
 	npc := p.Func(Mod, "newPackageConfig")
 	if npc == nil {
-		r.Anchor("R17e", "goose.newPackageConfig")
+		// the configuration literal was inlined or its constructor renamed: find it by its type
+		for _, g := range p.FuncsIn(Mod) {
+			p.instrs(g, func(b *ssa.BasicBlock, i int, in ssa.Instruction) {
+				if al, ok := in.(*ssa.Alloc); ok && al.Comment == "complit" && strings.HasSuffix(types.TypeString(al.Type(), nil), "go/packages.Config") {
+					npc = g
+				}
+			})
+		}
+	}
+	cfgDirParam := ""
+	inlinedCfg := npc != nil && npc.Name() != "newPackageConfig" && len(blockOfCall(p, npc, "golang.org/x/tools/go/packages.Load")) > 0
+	if npc == nil {
+		r.Anchor("R17e", "the packages.Config literal of the translator")
 	} else {
 		r.Func(FuncName(npc))
 		var flags, dir string
@@ -717,7 +757,16 @@ func checkLoaderAndFlags(p *Prog, r *Report, tr *ssa.Function, tpCall *ssa.Call)
 			}
 		})
 		r.Check("R17e", "package config build flags", npc.Pos(), flags == `["-tags","goose"]`, "BuildFlags = "+flags+`, expected ["-tags","goose"]`)
-		r.Check("R17e", "package config directory", npc.Pos(), len(npc.Params) == 1 && dir == npc.Params[0].Name(), "Dir = "+dir+", expected the directory parameter")
+		cfgDirParam = dir
+		dirOK := len(npc.Params) == 1 && dir == npc.Params[0].Name()
+		if !dirOK {
+			for _, pa := range npc.Params {
+				if b, ok := pa.Type().Underlying().(*types.Basic); ok && b.Info()&types.IsString != 0 && dir == pa.Name() {
+					dirOK = true
+				}
+			}
+		}
+		r.Check("R17e", "package config directory", npc.Pos(), dirOK, "Dir = "+dir+", expected the directory parameter")
 		need := int64(0)
 		for _, n := range []string{"NeedName", "NeedCompiledGoFiles", "NeedImports", "NeedTypes", "NeedSyntax", "NeedTypesInfo"} {
 			if pk := p.All["golang.org/x/tools/go/packages"]; pk != nil {
@@ -738,7 +787,7 @@ func checkLoaderAndFlags(p *Prog, r *Report, tr *ssa.Function, tpCall *ssa.Call)
 		// abstract paths of TranslatePackages with loading helpers spliced in; the configuration
 		// constructor and the per-package translation stay opaque events
 		keep := map[*ssa.Function]bool{}
-		if npc != nil {
+		if npc != nil && !inlinedCfg {
 			keep[npc] = true
 		}
 		if tpk := p.Func(Mod, "TranslationConfig.translatePackage"); tpk != nil {
@@ -761,6 +810,28 @@ func checkLoaderAndFlags(p *Prog, r *Report, tr *ssa.Function, tpCall *ssa.Call)
 					}
 				}
 				patOK := len(ld.Args) == 2 && ld.Args[1] == tp.Params[2].Name()
+				if inlinedCfg {
+					// the literal is built where packages.Load is called (a loading helper spliced in here):
+					// what matters is that helper's operands at its call
+					cfgOK = false
+					for _, e := range ip.Events {
+						_ = e
+					}
+					for _, g := range []*ssa.Function{npc} {
+						for _, c := range blockOfCall(p, tp, fullName(g)) {
+							if len(c.Call.Args) >= 2 {
+								for i, a := range c.Call.Args {
+									if sk(a) == tp.Params[1].Name() && i < len(g.Params) && g.Params[i].Name() == cfgDirParam {
+										cfgOK = true
+									}
+								}
+							}
+						}
+						if g == tp {
+							cfgOK = cfgDirParam == tp.Params[1].Name()
+						}
+					}
+				}
 				if !cfgOK || !patOK {
 					okL = false
 					why = fmt.Sprintf("config from newPackageConfig(modDir)=%v, patterns forwarded unchanged=%v (packages.Load(%s))", cfgOK, patOK, strings.Join(ld.Args, ", "))
@@ -818,6 +889,14 @@ func checkLoaderAndFlags(p *Prog, r *Report, tr *ssa.Function, tpCall *ssa.Call)
 	wire := func(flagName string, argIdx int) {
 		addr := flagVar[flagName]
 		ok := false
+		if argIdx >= len(tc.Call.Args) || argIdx >= len(tr.Params) {
+			wireByUse(p, r, mainF, tr, tc, flagName, addr)
+			return
+		}
+		if _, isStruct := tr.Params[argIdx].Type().Underlying().(*types.Struct); isStruct {
+			wireByUse(p, r, mainF, tr, tc, flagName, addr)
+			return
+		}
 		if ld, isLd := tc.Call.Args[argIdx].(*ssa.UnOp); isLd && addr != nil && ld.X == addr {
 			ok = true
 		}
@@ -856,17 +935,51 @@ func checkLoaderAndFlags(p *Prog, r *Report, tr *ssa.Function, tpCall *ssa.Call)
 		}
 	}
 	okArgs := false
-	if ac, ok := tc.Call.Args[0].(*ssa.Call); ok && calleeName(ac) == "flag.Args" {
-		okArgs = true
+	for _, a := range tc.Call.Args {
+		if ac, ok := a.(*ssa.Call); ok && calleeName(ac) == "flag.Args" {
+			okArgs = true
+		}
 	}
-	r.Check("R17e", "positional arguments are the patterns", instrPos(tc), okArgs, "patterns argument is "+sk(tc.Call.Args[0])+", expected flag.Args()")
+	if !okArgs {
+		// stored into the options value that translate receives
+		p.instrs(mainF, func(b *ssa.BasicBlock, i int, in ssa.Instruction) {
+			if st, ok := in.(*ssa.Store); ok {
+				if ac, ok := st.Val.(*ssa.Call); ok && calleeName(ac) == "flag.Args" {
+					okArgs = true
+				}
+			}
+		})
+	}
+	r.Check("R17e", "positional arguments are the patterns", instrPos(tc), okArgs, "no argument of translate is flag.Args()")
 	for fl, fld := range map[string]string{"source-comments": "AddSourceFileComments", "typecheck": "TypeCheck", "skip-interfaces": "SkipInterfaces"} {
 		ok := false
 		if a := flagVar[fl]; a != nil {
 			if _, f2, okf := fieldOf(a); okf && f2 == fld {
-				// and that struct is what translate receives
-				if ld, isLd := tc.Call.Args[4].(*ssa.UnOp); isLd && ld.X == a.(*ssa.FieldAddr).X {
-					ok = true
+				// and that struct is what translate receives (as an argument, or inside an options value)
+				base := a.(*ssa.FieldAddr).X
+				for _, arg := range tc.Call.Args {
+					if ld, isLd := arg.(*ssa.UnOp); isLd && ld.X == base {
+						ok = true
+					}
+				}
+				if !ok {
+					for _, rf := range refs(base) {
+						if ld, isLd := rf.(*ssa.UnOp); isLd && ld.X == base {
+							for _, r2 := range refs(ld) {
+								if _, isSt := r2.(*ssa.Store); isSt {
+									ok = true // copied into the options value
+								}
+							}
+						}
+					}
+					if fa2, isFA := base.(*ssa.FieldAddr); isFA {
+						// registered on a field of a configuration nested in the options value
+						for _, arg := range tc.Call.Args {
+							if ld, isLd := arg.(*ssa.UnOp); isLd && ld.X == fa2.X {
+								ok = true
+							}
+						}
+					}
 				}
 			}
 		}
@@ -984,4 +1097,65 @@ func nilCmp(k, op, prefix string) bool {
 	}
 	a, b := k[:i], k[i+len(op):]
 	return a == "nil" && strings.HasPrefix(b, prefix) || b == "nil" && strings.HasPrefix(a, prefix)
+}
+
+// wireByUse decides the wiring of a command-line flag when translate does not take it as a positional parameter
+// (an options struct, a method on a configuration value): the abstract paths of main with translate spliced in
+// show, in main's terms, what reaches the loader's directory argument, the output path and the error-gating test.
+func wireByUse(p *Prog, r *Report, mainF, tr *ssa.Function, tc *ssa.Call, flagName string, addr ssa.Value) {
+	key := "flag -" + flagName + " reaches its use in " + tr.Name()
+	if addr == nil {
+		r.Fail("R17e", key, instrPos(tc), "no flag -"+flagName+" is registered", "")
+		return
+	}
+	// the key of the flag variable's value as main reads it
+	vk := ""
+	for _, rf := range refs(addr) {
+		if ld, ok := rf.(*ssa.UnOp); ok && ld.X == addr {
+			vk = sk(ld)
+		}
+	}
+	if fa, ok := addr.(*ssa.FieldAddr); ok && vk == "" {
+		// registered on a field of a struct that is passed on as a whole
+		vk = strings.TrimPrefix(sk(fa), "&")
+	}
+	if vk == "" {
+		r.Unknown("R17e", key, instrPos(tc), "the variable registered for -"+flagName+" is never read")
+		return
+	}
+	keep := map[*ssa.Function]bool{}
+	for _, g := range p.srcFuncs {
+		if g != mainF && g != tr && g.Pkg != nil && g.Pkg.Pkg.Path() != cmdGoosePkg {
+			keep[g] = true
+		}
+	}
+	ips, ok := p.ipathsHavoc(mainF, keep)
+	if !ok {
+		r.Unknown("R17e", key, instrPos(tc), "the abstract paths of main could not be enumerated")
+		return
+	}
+	found := false
+	for _, ip := range ips {
+		switch flagName {
+		case "dir":
+			for _, e := range ip.Events {
+				if strings.HasSuffix(e.Callee, ".TranslatePackages") && len(e.Args) >= 2 && strings.Contains(e.Args[1], vk) {
+					found = true
+				}
+			}
+		case "out":
+			for _, e := range ip.Events {
+				if (e.Callee == "path.Join" || e.Callee == "path/filepath.Join") && len(e.Args) >= 1 && strings.Contains(e.Args[0], vk) {
+					found = true
+				}
+			}
+		case "ignore-errors":
+			for k := range ip.Rels {
+				if strings.Contains(k, vk) && (strings.HasSuffix(k, " == true") || strings.HasSuffix(k, " == false") || strings.HasPrefix(k, "true == ") || strings.HasPrefix(k, "false == ")) {
+					found = true
+				}
+			}
+		}
+	}
+	r.Check("R17e", key, instrPos(tc), found, fmt.Sprintf("the value of the variable registered for -%s (%s) does not reach the place where %s uses that setting", flagName, vk, tr.Name()))
 }
